@@ -78,11 +78,22 @@ def _check_scaled(ctx, src: MapSnap, dst, r, label):
                     ctx.observe("%s.%s[%s][%d]" % (label, name, c, i), n)
 
 
-def ob_rate(game, shape, ctx):
-    m = _chart(ctx, game, shape)
-    r = ctx.real("r")
-    ctx.assume(r > 0)
-    if game == "osu":
+def ob_rate(game, shape, ctx, no_preview=False, ints=False):
+    if ints:  # integer-typed columns (as read from integer-valued files) and a rate that gives non-integral results
+        real, ctx.real = ctx.real, (lambda name: ctx.int(name, -100000, 100000) if name[0] == "t" or name.startswith("len") else real(name))
+        try:
+            m = _chart(ctx, game, shape)
+        finally:
+            ctx.real = real
+        r = ctx.real("r")
+        k = ctx.int("rk", 0, 4)
+        ctx.assume(r * 2 == k * 2 + 1)
+    else:
+        m = _chart(ctx, game, shape)
+        r = ctx.real("r")
+        ctx.assume(r > 0)
+    p = None
+    if game == "osu" and not no_preview:
         p = ctx.real("preview")
         ctx.assume(p >= 0)
         m.preview_time = p
@@ -97,7 +108,7 @@ def ob_rate(game, shape, ctx):
         if k in skip:
             continue
         ctx.check("rated.field[%s]" % k, cell_same(ctx, getattr(m2, k), v), note="%r -> %r" % (v, getattr(m2, k)))
-    if game == "osu":
+    if game == "osu" and p is not None:
         ctx.check("rated.preview_time", ctx.eq(m2.preview_time * r, p))
 
 
@@ -224,6 +235,11 @@ def obligations(tier, seed):
                                   bound="one %s chart, shape=%s (<=2 hits, <=2 holds, <=2 tempo points, <=1 SV, SM extras), all times/lengths/bpms/rate symbolic reals, r>0" % (g, shape)))
         obs.append(Obligation("C13/identity/%s" % g, partial(ob_identity, g), bound="rate(r) with r==1 assumed, full chart"))
         obs.append(Obligation("C13/compose/%s" % g, partial(ob_compose, g), bound="rate(a).rate(b) vs rate(a*b), a,b>0 symbolic, full chart"))
+    obs.append(Obligation("C13/rate/osu/full/no-preview-point", partial(ob_rate, "osu", "full", no_preview=True),
+                          bound="osu chart with the default preview point (-1, unset) and sample events: everything else still scales"))
+    for g in GAMES:
+        obs.append(Obligation("C13/rate/%s/full/int-times" % g, partial(ob_rate, g, "full", ints=True),
+                              bound="%s chart whose times and lengths are integers (integer-typed columns), rate an odd multiple of 1/2" % g))
     obs.append(Obligation("C13/mapset/sm", ob_sm_mapset, bound="SMMapSet with 2 charts sharing one tempo list; offset, sample window symbolic"))
     obs.append(Obligation("C13/mapset/o2j", ob_o2j_mapset, bound="O2JMapSet with 2 charts"))
     for g in GAMES:
